@@ -811,6 +811,67 @@ class BaseInterpreter(Generic[TContext, TEvent]):
                 return produced
         return None
 
+    @staticmethod
+    def _validate_snapshot_shape(snapshot: Dict[str, Any]) -> None:
+        """Rejects a structurally corrupt snapshot with a library error.
+
+        Args:
+            snapshot (Dict[str, Any]): The decoded snapshot object.
+
+        Raises:
+            InvalidConfigError: If a required key is missing or a value has a
+                type `from_snapshot` cannot interpret.
+        """
+
+        def _bad(what: str) -> InvalidConfigError:
+            return InvalidConfigError(f"Corrupt snapshot: {what}.")
+
+        for key in ("status", "context"):
+            if key not in snapshot:
+                raise _bad(f"missing '{key}'")
+        if snapshot["status"] not in (
+            "uninitialized",
+            "running",
+            "done",
+            "error",
+            "stopped",
+        ):
+            raise _bad(f"unknown status {snapshot['status']!r}")
+        if not isinstance(snapshot["context"], dict):
+            raise _bad("'context' must be an object")
+        if not snapshot.get("configuration") and "state_ids" not in snapshot:
+            raise _bad("missing 'state_ids'")
+        for key in ("configuration", "state_ids"):
+            ids = snapshot.get(key)
+            if ids is None:
+                continue
+            if not isinstance(ids, list) or not all(
+                isinstance(i, str) for i in ids
+            ):
+                raise _bad(f"'{key}' must be a list of state ids")
+        history = snapshot.get("history")
+        if history is not None:
+            if not isinstance(history, dict) or not all(
+                isinstance(ids, list) and all(isinstance(i, str) for i in ids)
+                for ids in history.values()
+            ):
+                raise _bad("'history' must map state ids to lists of state ids")
+        actors = snapshot.get("actors")
+        if actors is not None:
+            if not isinstance(actors, dict) or not all(
+                isinstance(rec, dict)
+                and isinstance(rec.get("snapshot", {}), dict)
+                and (rec.get("src") is None or isinstance(rec["src"], str))
+                for rec in actors.values()
+            ):
+                raise _bad("'actors' must map actor ids to actor records")
+        system = snapshot.get("system")
+        if system is not None:
+            if not isinstance(system, dict) or not all(
+                isinstance(actor_id, str) for actor_id in system.values()
+            ):
+                raise _bad("'system' must map system ids to actor ids")
+
     @classmethod
     def from_snapshot(
         cls: Type["BaseInterpreter[Any, Any]"],
@@ -866,6 +927,14 @@ class BaseInterpreter(Generic[TContext, TEvent]):
                 f"Snapshot must decode to a JSON object, got "
                 f"{type(snapshot).__name__}."
             )
+
+        # 🧯 Validate the shape before touching it. A snapshot that is valid
+        #    JSON but structurally damaged (a missing key, a value of the
+        #    wrong type) used to surface as a raw KeyError / TypeError /
+        #    AttributeError from the lines below, which `except
+        #    XStateMachineError` - the documented way to catch this library's
+        #    failures - does not see.
+        cls._validate_snapshot_shape(snapshot)
 
         # 🧪 Create a new instance of the correct interpreter class (sync/async)
         interpreter = cls(machine)
